@@ -130,9 +130,34 @@ RandArm(ti) ==
               common == IF HasOr(p0) \/ HasOr(q0) THEN {} ELSE WildTys(ty, p0) \cap WildTys(ty, q0)
           IN IF common = {} \/ RandomElement(1..2) = 1 THEN POr(p0, q0)
              ELSE LET tau == RandomElement(common) IN POr(BindFirst(ty, p0, tau).p, BindFirst(ty, q0, tau).p)
-RandList(g) == LET ti == RandomElement(1..NT)
-                   len == RandomElement(2..5)
-               IN [ti |-> ti, g |-> g, arms |-> [i \in 1..len |-> RandArm(ti)]]
+\* lists that are accepted by construction and END in an or-pattern with binders whose alternatives come from different pool
+\* patterns (so the same name is bound at different places): binder-free earlier arms, each disjoint from the or-pattern and
+\* each covering a value not covered before, take exactly what the or-pattern leaves over
+RECURSIVE DrawOrArm(_, _)
+DrawOrArm(ti, tries) ==
+  LET a == RandArm(ti) IN
+  IF a.k = "or" /\ BinderTys(TyU[ti].ty, a) # <<>> /\ WellFormedOr(TyU[ti].ty, a) THEN a
+  ELSE IF tries = 0 THEN Wild ELSE DrawOrArm(ti, tries - 1)
+RECURSIVE CoverRest(_, _, _, _)
+CoverRest(ti, rest, orp, acc) ==
+  IF rest = {} THEN [ok |-> TRUE, arms |-> acc]
+  ELSE LET v == CHOOSE x \in rest : TRUE
+           cands == {j \in 1..Len(Pool[ti]) :
+                       LET r == Pool[ti][j] IN
+                       /\ BinderTys(TyU[ti].ty, r) = <<>> /\ Matches(v, r)
+                       /\ \A x \in Vals[ti] : ~(Matches(x, r) /\ Matches(x, orp))}
+       IN IF cands = {} THEN [ok |-> FALSE, arms |-> acc]
+          ELSE LET r == Pool[ti][RandomElement(cands)]
+               IN CoverRest(ti, {x \in rest : ~Matches(x, r)}, orp, Append(acc, r))
+PlainList(g) == LET ti == RandomElement(1..NT)
+                    len == RandomElement(2..5)
+                IN [ti |-> ti, g |-> g, arms |-> [i \in 1..len |-> RandArm(ti)]]
+OrLastList(g) ==
+  LET ti == RandomElement(1..NT)
+      orp == DrawOrArm(ti, 12)
+      c == IF orp.k = "or" THEN CoverRest(ti, Unmatched(Vals[ti], <<orp>>), orp, <<>>) ELSE [ok |-> FALSE, arms |-> <<>>]
+  IN IF c.ok THEN [ti |-> ti, g |-> g, arms |-> Append(c.arms, orp)] ELSE PlainList(g)
+RandList(g) == IF RandomElement(1..3) = 1 THEN OrLastList(g) ELSE PlainList(g)
 RandBatch(b) == [j \in 1..K |-> RandList(b * K + j - 1)]
 
 \* ------------------------------------------------------------- program text of one match
